@@ -4,10 +4,10 @@
 //! and verifies in `open` (crypto / device / envelope / idam / perspective FFIs, deterministic
 //! `DefaultEngine`). Two registered devices A (owner) and B produce an honest 6-command script through
 //! actions:
-//!     c0 Init(A)  c1 AddDevice(B)  c2 SetCounter(1,100)            — by A
+//!     c0 Init(A)  c1 AddDevice(B)  c2 SetCounter(1,100,"hits",Relative)  — by A
 //!     c3 IncrementCounter(1,50)  — by A, child of c2
 //!     c4 IncrementCounter(1,25)  — by B, child of c2 (sibling of c3)
-//!     c5 SetCounter(2,7)         — by B, child of c4
+//!     c5 SetCounter(2,7,"b",Absolute) — by B, child of c4
 //! For every honest command × every base (the command's ancestors; thorough also "everything that is
 //! not a descendant") × every wire-field modification a history is run on a fresh third replica:
 //!     deliver base honestly; observe; deliver the modified command; observe; deliver the honest
@@ -31,7 +31,7 @@ use aranya_idam_ffi::Ffi as IdamFfi;
 use aranya_perspective_ffi::FfiPerspective;
 use aranya_policy_compiler::Compiler;
 use aranya_policy_lang::lang::parse_policy_document;
-use aranya_policy_vm::{ffi::FfiModule as _, Identifier, Machine, Module, Struct, Value};
+use aranya_policy_vm::{ffi::FfiModule as _, Identifier, Machine, Module, Struct, TypeKind, Value};
 use aranya_runtime::{
     storage::linear::testing::MemStorageProvider, storage::MemSpill, Address, ClientError, ClientState, CmdId, Command,
     FfiCallable, GraphId, Location, MaxCut, PolicyError, PolicyId, PolicyStore, Prior, Priority, Query as _,
@@ -318,6 +318,7 @@ impl Replica {
 // the honest script
 
 struct Honest {
+    machine: Machine,
     graph: [u8; 32],
     /// c0..c5 in creation order
     cmds: Vec<Wire>,
@@ -334,7 +335,9 @@ fn honest_script(seed: u64, module: &Module) -> Honest {
     ok(a.action("init", vec![da.keys.clone(), Value::Int(42)]), "init");
     let g = a.graph.unwrap();
     ok(a.action("add_device", vec![db.keys.clone()]), "add_device");
-    ok(a.action("set_counter", vec![Value::Int(1), Value::Int(100)]), "set_counter");
+    let mode = |v: i64| Value::Enum("CounterMode".parse().unwrap(), v);
+    let text = |t: &str| Value::String(t.parse().unwrap());
+    ok(a.action("set_counter", vec![Value::Int(1), Value::Int(100), text("hits"), mode(1)]), "set_counter");
     let upto2 = a.export(g);
     // order c0,c1,c2 by max_cut
     let mut first: Vec<Wire> = upto2.values().cloned().collect();
@@ -349,7 +352,7 @@ fn honest_script(seed: u64, module: &Module) -> Honest {
     b.deliver(g, &first).unwrap_or_else(|e| mcx::machinery_error(&format!("honest sync A→B failed: {e}")));
     ok(a.action("increment_counter", vec![Value::Int(1), Value::Int(50)]), "increment_counter (A)");
     ok(b.action("increment_counter", vec![Value::Int(1), Value::Int(25)]), "increment_counter (B)");
-    ok(b.action("set_counter", vec![Value::Int(2), Value::Int(7)]), "set_counter (B)");
+    ok(b.action("set_counter", vec![Value::Int(2), Value::Int(7), text("b"), mode(0)]), "set_counter (B)");
     let all_a = a.export(g);
     let all_b = b.export(g);
     let c3 = all_a.values().find(|w| !upto2.contains_key(&w.id)).cloned().unwrap_or_else(|| mcx::machinery_error("c3 missing"));
@@ -368,7 +371,8 @@ fn honest_script(seed: u64, module: &Module) -> Honest {
         .iter()
         .map(|w| postcard::from_bytes::<VmProtocolData<'_>>(&w.data).map(|d| d.kind.to_string()).unwrap_or_else(|e| mcx::machinery_error(&format!("honest command does not decode: {e}"))))
         .collect();
-    Honest { graph: *g.as_array(), cmds, names, dev_ids: vec![*da.device_id.as_array(), *db.device_id.as_array()] }
+    let machine = Machine::from_module(module.clone()).unwrap_or_else(|e| mcx::machinery_error(&format!("machine: {e}")));
+    Honest { machine, graph: *g.as_array(), cmds, names, dev_ids: vec![*da.device_id.as_array(), *db.device_id.as_array()] }
 }
 
 // ------------------------------------------------------------------------------------------------
@@ -426,6 +430,80 @@ fn layout(data: &[u8]) -> Layout {
 fn encode(author: &[u8; 32], kind: &str, fields: &[u8], sig: &[u8]) -> Option<Vec<u8>> {
     let kind: Identifier = kind.parse().ok()?;
     postcard::to_allocvec(&VmProtocolData { author_id: DeviceId::from_bytes(*author), kind, serialized_fields: fields, signature: sig }).ok()
+}
+
+/// Every varint of a serialized command struct (ints, enum discriminants, string / bytes length
+/// prefixes), located by walking the payload along the command's schema: `(offset, length, what)`.
+fn payload_varints(m: &Machine, kind: &str, payload: &[u8]) -> Vec<(usize, usize, String)> {
+    fn varint_len(b: &[u8], off: usize) -> Result<(usize, u64), String> {
+        let mut v = 0u64;
+        for i in 0..10 {
+            let x = *b.get(off + i).ok_or("payload ends inside a varint")?;
+            v |= ((x & 0x7f) as u64) << (7 * i).min(63);
+            if x & 0x80 == 0 {
+                return Ok((i + 1, v));
+            }
+        }
+        Err("varint longer than 10 bytes".into())
+    }
+    fn walk(m: &Machine, ty: &TypeKind, b: &[u8], off: &mut usize, path: &str, out: &mut Vec<(usize, usize, String)>) -> Result<(), String> {
+        match ty {
+            TypeKind::Unit => {}
+            TypeKind::Int | TypeKind::Enum(_) => {
+                let (l, _) = varint_len(b, *off)?;
+                out.push((*off, l, format!("{path}:{}", if matches!(ty, TypeKind::Int) { "int" } else { "enum" })));
+                *off += l;
+            }
+            TypeKind::String | TypeKind::Bytes => {
+                let (l, n) = varint_len(b, *off)?;
+                out.push((*off, l, format!("{path}:{}", if matches!(ty, TypeKind::String) { "string_len" } else { "bytes_len" })));
+                *off += l + n as usize;
+            }
+            TypeKind::Bool => *off += 1,
+            TypeKind::Id => *off += 33,
+            TypeKind::Struct(name) => {
+                let def = m.struct_defs.get(name).ok_or(format!("no struct {name}"))?;
+                for f in &def.items {
+                    walk(m, &f.ty, b, off, &format!("{path}.{}", f.name), out)?;
+                }
+            }
+            TypeKind::Optional(t) => {
+                let tag = *b.get(*off).ok_or("payload ends at an option tag")?;
+                *off += 1;
+                if tag == 1 {
+                    walk(m, t, b, off, path, out)?;
+                }
+            }
+            TypeKind::Result(r) => {
+                let tag = *b.get(*off).ok_or("payload ends at a result tag")?;
+                *off += 1;
+                walk(m, if tag == 0 { &r.ok } else { &r.err }, b, off, path, out)?;
+            }
+            TypeKind::Never => return Err("never-typed field".into()),
+        }
+        Ok(())
+    }
+    let mut out = vec![];
+    let mut off = 0;
+    let name: Identifier = kind.parse().unwrap_or_else(|_| mcx::machinery_error("honest kind is not an identifier"));
+    walk(m, &TypeKind::Struct(name), payload, &mut off, kind, &mut out).unwrap_or_else(|e| mcx::machinery_error(&format!("cannot walk the payload of {kind}: {e}")));
+    if off != payload.len() {
+        mcx::machinery_error(&format!("payload walk of {kind} consumed {off} of {} bytes", payload.len()));
+    }
+    out
+}
+
+/// The overlong form of the varint at `[off, off+len)` with `extra` (1 or 2) more continuation bytes:
+/// the same value, a different byte string.
+fn overlong(bytes: &[u8], off: usize, len: usize, extra: usize) -> Vec<u8> {
+    let mut v = bytes[..off + len].to_vec();
+    v[off + len - 1] |= 0x80;
+    for _ in 1..extra {
+        v.push(0x80);
+    }
+    v.push(0x00);
+    v.extend_from_slice(&bytes[off + len..]);
+    v
 }
 
 fn field_class(name: &str) -> (&'static str, bool) {
@@ -648,6 +726,29 @@ fn tampers(h: &Honest, ci: usize, present: &[usize], alphabet: Alphabet) -> Vec<
             if !present.contains(&j) && x != *o {
                 add("swap", format!("c{j} re-parented onto this parent"), x, true);
             }
+        }
+    }
+    // ---- non-canonical re-encodings: the same values in a different byte string
+    // (a) of the payload, which is what the author signed: every varint in an overlong form
+    for (vi, (off, len, what_v)) in payload_varints(&h.machine, &kind, &payload).into_iter().enumerate() {
+        for extra in 1..=2 {
+            if len + extra > 10 {
+                continue;
+            }
+            let p2 = overlong(&payload, off, len, extra);
+            if let Some(x) = mk(encode(&author, &kind, &p2, &sig)) {
+                add("payload_reencoding", format!("fields.varint{vi}({what_v})+{extra}"), x, true);
+            }
+        }
+    }
+    // (b) of the outer VmProtocolData framing (length prefixes of author / kind / fields / signature),
+    // which is not covered by the signature: author, kind, payload bytes and signature stay
+    // byte-identical, so these are recorded only (see `equivalent`)
+    for f in lay.fields.iter().filter(|f| f.name.ends_with("_len")) {
+        for extra in 1..=2 {
+            let mut x = w.clone();
+            x.data = overlong(&w.data, f.start, f.end - f.start, extra);
+            add("outer_framing_reencoding", format!("data:{}+{extra}", f.name), x, true);
         }
     }
     // ---- the data bytewise: DESIGN 4.8 over every field of the encoding
@@ -1185,7 +1286,7 @@ pub fn run(args: &Args) {
     rep.set(
         "bounds",
         format!(
-            "2 registered devices + 1 observing replica; honest script of 6 commands (one fork); bases: ancestors{}; modifications: every id bit, parent id bits ({}), parent := every stored command, parent max-cut, parent kind (none/merge), priority, policy bytes, author := other/unregistered device, kind := every command name, fields/signature/envelope/data swaps between honest commands, DESIGN 4.8 over every byte of the serialized command (7-value alphabet{}, every truncation, trailing byte, re-cuts, length fields); every refused modification followed by the honest delivery; in-flight mode for c1..c5: base = ancestors of the parent, one transaction with [honest parent, modified child] in one and in two add_commands calls, then commit or drop ({}), then the honest delivery ({} alphabet)",
+            "2 registered devices + 1 observing replica; honest script of 6 commands (one fork); bases: ancestors{}; modifications: every id bit, parent id bits ({}), parent := every stored command, parent max-cut, parent kind (none/merge), priority, policy bytes, author := other/unregistered device, kind := every command name, fields/signature/envelope/data swaps between honest commands, every varint of the payload (ints, enum discriminants, string/bytes length prefixes) and every outer length prefix in its overlong forms with 1 and 2 extra continuation bytes, DESIGN 4.8 over every byte of the serialized command (7-value alphabet{}, every truncation, trailing byte, re-cuts, length fields); every refused modification followed by the honest delivery; in-flight mode for c1..c5: base = ancestors of the parent, one transaction with [honest parent, modified child] in one and in two add_commands calls, then commit or drop ({}), then the honest delivery ({} alphabet)",
             if thorough { " and all-non-descendants for every modification" } else { " (+ all-non-descendants for id/parent/swap modifications)" },
             if thorough { "all 256" } else { "8" },
             if thorough { ", every single-bit flip" } else { "" },
@@ -1196,7 +1297,7 @@ pub fn run(args: &Args) {
     rep.set("rule", "states = distinct observation hashes and distinct (command, field class, outcome, observation) tuples; transitions = sync deliveries executed (add_commands+commit); traces = histories run on the real ClientState/VmPolicy");
     rep.assume("the policy (harness copy of the repository's example policy) verifies signatures in every open block; keys, nonces deterministic from VERIF_SEED; DefaultCipherSuite");
     rep.assume("single mode: a delivery is one transaction with one add_commands call, committed on success and dropped on error, as the repository's syncers do; in-flight mode: the parent and the modified child share one transaction, which is committed or dropped after the failing call");
-    rep.assume("modifications of priority, policy bytes and parent max-cut (not named by the statement) and re-encodings that decode to the identical command are recorded, not judged");
-    guards(&mut rep, &["deliveries_tampered", "inflight_histories", "inflight_deliveries_tampered", "inflight_class_id", "inflight_class_signature", "inflight_class_payload", "inflight_class_author", "inflight_class_kind", "class_id", "class_parent_id", "class_parent_kind", "class_author", "class_kind", "class_payload", "class_signature", "class_swap", "class_data_framing"], &["accepted_honest", "inflight_accepted_honest", "rejected_tampered", "inflight_rejected_tampered", "rejected_by_policy", "honest_accepted_after_tampered", "two_step_observation_equal_to_honest"]);
+    rep.assume("recorded, not judged: modifications of priority, policy bytes and parent max-cut (not named by the statement), and re-encodings of the OUTER VmProtocolData framing (trailing byte, overlong length prefixes of author/kind/fields/signature) that leave author, kind, payload bytes and signature byte-identical — the framing is not part of what is signed. Re-encodings of the payload itself (overlong varints) change the signed bytes and are judged like any payload modification");
+    guards(&mut rep, &["deliveries_tampered", "inflight_histories", "inflight_deliveries_tampered", "inflight_class_id", "inflight_class_signature", "inflight_class_payload", "inflight_class_author", "inflight_class_kind", "inflight_class_payload_reencoding", "class_payload_reencoding", "class_id", "class_parent_id", "class_parent_kind", "class_author", "class_kind", "class_payload", "class_signature", "class_swap", "class_data_framing"], &["accepted_honest", "inflight_accepted_honest", "rejected_tampered", "inflight_rejected_tampered", "rejected_by_policy", "honest_accepted_after_tampered", "two_step_observation_equal_to_honest"]);
     rep.finish()
 }
